@@ -65,10 +65,10 @@ Inductive call :=
 | CDump | CExportXml | CDistancesQuery | CMemattrQuery | CCpukindsQuery | CCheck | CDup.
 
 (* state of the adopted copy that matters: were the memattr caches of the *mapped* topology validated by the writer?
-   hwloc_shmem_topology_write refreshes the distances of [new] but the memattrs of the OLD topology: false *)
-Definition writer_validates_mapped_memattr_caches : bool := false.
-(* hwloc_shmem_topology_adopt duplicates support and infos, not the allowed sets *)
-Definition adopter_has_private_allowed_sets : bool := false.
+   hwloc_shmem_topology_write refreshes the distances and the memattrs of [new] (fix 13a2f04; it used to refresh the OLD memattrs) *)
+Definition writer_validates_mapped_memattr_caches : bool := true.
+(* hwloc_shmem_topology_adopt duplicates support, infos and (fix e8b5396) the allowed sets *)
+Definition adopter_has_private_allowed_sets : bool := true.
 
 Inductive kind_of_call := Modifier | Permitted | Consulting.
 Definition call_kind (c : call) : kind_of_call :=
@@ -78,10 +78,12 @@ Definition call_kind (c : call) : kind_of_call :=
   | CAllow | CTopologyInfosAdd | CSetUserdata => Permitted
   | _ => Consulting
   end.
-(* the entry points that test topology->adopted_shmem_addr (topology.c, distances.c, diff.c) *)
+(* the entry points that test topology->adopted_shmem_addr (topology.c, distances.c, diff.c; memattrs.c, cpukinds.c and
+   hwloc_topology_refresh since fix 18c90e7) *)
 Definition has_guard (c : call) : bool :=
   match c with
-  | CRestrict | CInsertMisc | CAllocGroup | CInsertGroup | CDistancesAdd | CDistancesRemove | CDistancesRemoveByDepth | CDiffApply => true
+  | CRestrict | CInsertMisc | CAllocGroup | CInsertGroup | CDistancesAdd | CDistancesRemove | CDistancesRemoveByDepth | CDiffApply
+  | CMemattrRegister | CMemattrSetValue | CCpukindsRegister | CRefresh => true
   | _ => false
   end.
 (* what an unguarded call writes *)
